@@ -162,8 +162,9 @@ func (c *sclient) Close() error { return nil }
 
 // ---------- recording sink ----------
 type scall struct {
-	ids   []int64
-	reply chan bool
+	ids    []int64
+	fields []string
+	reply  chan bool
 }
 type rsink struct {
 	arrive chan *scall
@@ -173,14 +174,16 @@ type rsink struct {
 
 func (s *rsink) OnEvent(events []*api.LogEvent) error {
 	ids := make([]int64, len(events))
+	fields := make([]string, len(events))
 	for i, e := range events {
 		v, err := strconv.ParseInt(e.Message, 10, 64)
 		if err != nil {
 			v = -1
 		}
 		ids[i] = v
+		fields[i] = e.Fields
 	}
-	call := &scall{ids: ids, reply: make(chan bool, 1)}
+	call := &scall{ids: ids, fields: fields, reply: make(chan bool, 1)}
 	select {
 	case s.arrive <- call:
 	case <-s.dead:
@@ -850,6 +853,19 @@ const rule = "event scripts (10-70 events drawn online over partition growth, lo
 func main() {
 	Main("C18", "C18K", func(c *Ctx) error {
 		if c.Replay != nil {
+			var e2e struct {
+				E2E        bool `json:"e2e"`
+				Total      int  `json:"total"`
+				RejectPage int  `json:"rejectPage"`
+			}
+			if err := FromJSON(c.Replay, &e2e); err == nil && e2e.E2E {
+				cs, err := runE2E(e2e.Total, e2e.RejectPage)
+				if err != nil {
+					return err
+				}
+				c.Add(*cs)
+				return c.Finish(rule)
+			}
 			var rp Replay
 			if err := FromJSON(c.Replay, &rp); err != nil {
 				return err
@@ -861,6 +877,12 @@ func main() {
 			c.Add(*cs)
 			return c.Finish(rule)
 		}
+		// end-to-end against the real server: page 1 accepted, page 2 rejected and retried, page 3 accepted
+		e2e, err := runE2E(2100, 2)
+		if err != nil {
+			return err
+		}
+		c.Add(*e2e)
 		cor := corpus()
 		n := c.N(700)
 		type job struct {
